@@ -348,7 +348,9 @@ func PropC12(c *vs.Case, f Factory, kind string, fixed bool) error {
 	}
 	var fault FaultSpec
 	var extra []FaultSpec
-	c.Describe(func() any { return map[string]any{"scenario": scn, "fault": fault, "extraFaults": extra, "seedTrace": seedTrace}})
+	c.Describe(func() any {
+		return map[string]any{"scenario": scn, "fault": fault, "extraFaults": extra, "seedTrace": seedTrace}
+	})
 	progCopy := func() *Scn {
 		b, _ := json.Marshal(scn)
 		var s Scn
